@@ -168,7 +168,8 @@ class Env:
 
     def make_file(self, name):
         """a sparse file of the size of a real .DEM (its content is defined by LazyTile)"""
-        with open(os.path.join(self.dir, (name + ".dem").upper()), "wb") as f:
+        # like the real download_tile, the writer asks the library where the cache directory is
+        with open(os.path.join(self.topo._get_data_path(), (name + ".dem").upper()), "wb") as f:
             f.truncate(FILE_BYTES)
 
     def cached(self):
@@ -844,6 +845,91 @@ def check_cache(ck, env, n, use_model):
     env.clear_cache()
 
 
+# ---------------------------------------------------------------- cold start: the REAL _get_data_path
+def check_cold_start(ck, env, rounds=1):
+    """The coldest cache is a directory that does not exist yet.  With `_data_path` reset to None the
+    real `_get_data_path` resolves (and must create) the cache directory from the environment, for
+    every combination: TYPHON_DATA_PATH -> existing / not yet existing directory, only
+    XDG_CACHE_HOME (existing / not yet existing), both, neither (HOME and cwd in a scratch dir).
+    First request: directory and tile file appear, one download; second request and a mosaic over
+    the tile: no download, correct pixels.  Nothing outside the scratch directory is touched."""
+    topo, S, rng = env.topo, env.S, ck.rng
+    names = [t[0] for t in OWN]
+    saved_env = {k: os.environ.get(k) for k in ("TYPHON_DATA_PATH", "XDG_CACHE_HOME", "HOME")}
+    saved_cwd = os.getcwd()
+    root = tempfile.mkdtemp(prefix="verif_c20_cold_")
+    real_root = os.path.realpath(root)
+    try:
+        for rnd in range(rounds):
+            scenarios = [
+                ("tdp-existing", {"TYPHON_DATA_PATH": "tdp_a"}, ["tdp_a"], "tdp_a/topography"),
+                ("tdp-not-yet-existing", {"TYPHON_DATA_PATH": "tdp_b/deeper"}, [], "tdp_b/deeper/topography"),
+                ("xdg-only-existing", {"XDG_CACHE_HOME": "xdg_a"}, ["xdg_a"], "xdg_a"),
+                ("xdg-only-not-yet-existing", {"XDG_CACHE_HOME": "xdg_b/cache"}, [], "xdg_b/cache"),
+                ("both-set", {"TYPHON_DATA_PATH": "tdp_c", "XDG_CACHE_HOME": "xdg_c"}, ["xdg_c"], "tdp_c/topography"),
+                ("neither-set", {}, [], None),
+            ]
+            for label, envvars, premade, expect in scenarios:
+                base = os.path.join(root, f"r{rnd}_{label}")
+                home = os.path.join(base, "home")
+                os.makedirs(home)
+                for d in premade:
+                    os.makedirs(os.path.join(base, d))
+                for k in ("TYPHON_DATA_PATH", "XDG_CACHE_HOME"):
+                    os.environ.pop(k, None)
+                for k, v in envvars.items():
+                    os.environ[k] = os.path.join(base, v)
+                os.environ["HOME"] = home
+                os.chdir(home)
+                topo._data_path = None                     # a fresh process: nothing resolved yet
+                name = rng.choice(names)
+                case = dict(op="coldstart", scenario=label, env={k: v for k, v in envvars.items()}, tile=name)
+                env.downloads.clear()
+                env.reads.clear()
+                ok, t = guarded(ck, lambda: S.get_tile(name), case, f"first get_tile({name}) on a cold start [{label}]")
+                ck.case(key=("coldstart", label, name), kind=f"coldstart/{label}")
+                if not ok:
+                    continue
+                d = topo._data_path
+                fn = (name + ".dem").upper()
+                if d is None or not os.path.isdir(d) or not os.path.exists(os.path.join(d, fn)):
+                    ck.violation("other", f"[{label}] after the first request the cache directory {d!r} does not hold {fn}", case)
+                    continue
+                if not os.path.realpath(d).startswith(real_root):
+                    ck.violation("other", f"[{label}] cache directory {d!r} lies outside the directories named by the environment", case)
+                    continue
+                if expect is not None and os.path.realpath(d) != os.path.realpath(os.path.join(base, expect)):
+                    ck.violation("other", f"[{label}] cache directory resolved to {d!r}, expected {os.path.join(base, expect)!r} "
+                                          f"(TYPHON_DATA_PATH/topography, else XDG_CACHE_HOME)", case)
+                    continue
+                if list(env.downloads) != [name] or getattr(t, "name", None) != name or getattr(t, "shape", None) != (TH, TW):
+                    ck.violation("other", f"[{label}] first request: downloads {env.downloads}, tile {getattr(t, 'name', None)} {getattr(t, 'shape', None)}", case)
+                    continue
+                ok, t2 = guarded(ck, lambda: S.get_tile(name), case, f"second get_tile({name}) [{label}]")
+                if ok and list(env.downloads) != [name]:
+                    ck.violation("other", f"[{label}] second request downloaded again: {env.downloads}", case)
+                    continue
+                # a small mosaic well inside that tile: served from the cache, correct pixels
+                _, a0, o0, a1, o1 = OWN_BY_NAME[name]
+                la, lo = a0 + rng.uniform(5, 45), o0 + rng.uniform(5, 35)
+                rect = (la, lo, la + rng.uniform(0.01, 0.1), lo + rng.uniform(0.01, 0.1))
+                c2 = dict(case_of("elev", rect, kind="coldstart"), scenario=label)
+                ok, res = guarded(ck, lambda: S.elevation(*rect), c2, f"elevation after the cold start [{label}]", rect=rect)
+                if ok:
+                    oracle_elev(ck, rect, res[0], res[1], res[2], c2)
+                    if list(env.downloads) != [name]:
+                        ck.violation("other", f"[{label}] elevation inside the cached tile {name} downloaded {env.downloads[1:]}", c2)
+    finally:
+        os.chdir(saved_cwd)
+        for k, v in saved_env.items():
+            if v is None:
+                os.environ.pop(k, None)
+            else:
+                os.environ[k] = v
+        topo._data_path = env.dir
+        shutil.rmtree(root, ignore_errors=True)
+
+
 # ---------------------------------------------------------------- histories (hidden state in the grids)
 MUTATIONS = ["shift", "scale", "nan", "reverse", "mod360", "radians", "zero"]
 
@@ -1107,6 +1193,7 @@ def main():
                             "(index computation of get_native_grids in doubles vs exact)")
         check_tiles(ck, env, ck.budget(1500, 30000), use_model)
         check_cache(ck, env, ck.budget(60, 1500), use_model)
+        check_cold_start(ck, env, rounds=1 if ck.tier == "quick" else 10)
         explore_elev(ck, env, ck.budget(100, 1500), use_model)
         check_histories(ck, env, ck.budget(30, 600))
         if ck.broken() and not ck.violations:
@@ -1114,6 +1201,7 @@ def main():
             aligned_edges(ck, env, False)
             check_tiles(ck, env, 20000, False)
             check_cache(ck, env, 500, False)
+            check_cold_start(ck, env, rounds=5)
             explore_elev(ck, env, 1500, False)
             check_histories(ck, env, 300)
     except StopIteration:
@@ -1138,7 +1226,9 @@ def replay(path):
         raise SystemExit(1)
     env = Env()
     try:
-        if c.get("op") in ("elev", "tiles", "edge", "history"):
+        if c.get("op") == "coldstart" or c.get("scenario"):
+            check_cold_start(ck, env, rounds=1)
+        elif c.get("op") in ("elev", "tiles", "edge", "history"):
             run_corpus_case(ck, env, c, use_model=False)
         elif c.get("op") == "cache":
             names = [t[0] for t in OWN]
